@@ -22,7 +22,11 @@ H = 'yui_matrix::dense::lll::LLLHNFCalc::<R>::'
 
 
 def sk(t):
-    return re.sub(r'#(?:i\d+:)?\d+\.\d+', '', show(t, -1000))
+    x = re.sub(r'#(?:i\d+:)?\d+\.\d+', '', show(t, -1000))
+    # m.checked_sub(1): Some(m - 1) iff m >= 1
+    x = re.sub(r'discr\(checked_sub\((nrows\(&?\*?arg1\.data\)), (\d+)\)\)', r'Ge(\1, \2)', x)
+    x = re.sub(r'checked_sub\((nrows\(&?\*?arg1\.data\)), (\d+)\)\.Some\.0', r'SubWithOverflow(\1, \2).0', x)
+    return x
 
 
 def run(facts, rep):
